@@ -124,6 +124,8 @@ def run(tier, seed):
 
 def literal_of(v):
     """Excel literal text for a value, or None."""
+    if type(v).__name__ == 'EmptyCell':
+        return None          # a blank has no literal (it is an int subclass that prints as 0: writing 0 would compare a number, not a blank)
     if isinstance(v, bool):
         return 'TRUE' if v else 'FALSE'
     if isinstance(v, int) and 0 <= v < 10 ** 15:
